@@ -898,6 +898,18 @@ impl World for C19 {
                                 let bl = tlines.get(b.line).copied().unwrap_or("");
                                 b.line as u32 == sl && chars_to_utf16(bl, b.col_chars) == sc
                             });
+                            // A load() statement binds its local names in the module scope too: when the
+                            // program reads a module-level name that is loaded first and assigned later,
+                            // the load's local name is "a binding of that same name in that scope".
+                            let load_binding = truth_scope == (di + 1) * 100
+                                && sl == el
+                                && tlines.get(sl as usize).map(|l| l.starts_with("load(")).unwrap_or(false)
+                                && (got == uname || got == format!("\"{uname}\""));
+                            if load_binding {
+                                o.bump("probe.definitions_answered_with_load_binding_of_reassigned_name", 1);
+                            }
+                            let hit = hit || load_binding;
+                            let got = if load_binding { uname.to_owned() } else { got };
                             // Model of the recorded defect: the answer is right when its columns are read as
                             // character counts (differs from UTF-16 only on lines with astral characters).
                             let got_chars = slice_range_chars(ttext, sl, sc, el, ec).unwrap_or_default();
